@@ -5,6 +5,7 @@
 
   The model mirrors the code as it is, defects included:
   * `findStop` returns the first *listed* stop that occurs, not the earliest occurrence (F7);
+    `stepPiece`/`run` take a flag `pinned`: `true` = the pinned code, `false` = the proposed repair;
   * `flushPending` silently drops the bytes after the longest valid UTF-8 prefix (F20);
   * the finish reason has two values for three causes (F20).
 -/
@@ -32,6 +33,26 @@ def contains (s sub : Bytes) : Bool := (indexOf sub s).isSome
 /-- `FindStop`: the first stop *in list order* that occurs in the sequence. -/
 def findStop (seq : Bytes) (stops : List Bytes) : Option Bytes :=
   stops.find? (fun stop => contains seq stop)
+
+/-- the repaired `FindStop` (proposed fix for F7, proposed_fixes/C14-F7.patch): the stop whose first
+    occurrence starts earliest; among stops starting at the same place, the first listed. -/
+def earliestAux (seq : Bytes) : List Bytes → Option (Nat × Bytes) → Option (Nat × Bytes)
+  | [], best => best
+  | stop :: rest, best =>
+    earliestAux seq rest
+      (match indexOf stop seq with
+       | none => best
+       | some i =>
+         match best with
+         | none => some (i, stop)
+         | some (j, s) => if i < j then some (i, stop) else some (j, s))
+
+def findStopEarliest (seq : Bytes) (stops : List Bytes) : Option Bytes :=
+  (earliestAux seq stops none).map (·.2)
+
+/-- variant switch: `pinned = true` is the code as pinned (first listed), `false` the repaired code -/
+def findStopV (pinned : Bool) (seq : Bytes) (stops : List Bytes) : Option Bytes :=
+  if pinned then findStop seq stops else findStopEarliest seq stops
 
 /-- `ContainsStopSuffix`: some non-empty prefix `stop[:i]` (1 ≤ i ≤ len stop) is a suffix of the sequence. -/
 def containsStopSuffix (seq : Bytes) (stops : List Bytes) : Bool :=
@@ -152,10 +173,10 @@ def St.finish (st : St) (r : Reason) (c : Cause) : St :=
   { st.flush with done := some r, cause := some c }
 
 /-- the body of the sampling loop for one piece that is not EOS (after `numPredicted++`) -/
-def stepPiece (stops : List Bytes) (st : St) (p : Bytes) : St :=
+def stepPiece (pinned : Bool) (stops : List Bytes) (st : St) (p : Bytes) : St :=
   let st := { st with numPredicted := st.numPredicted + 1, pending := st.pending ++ [p], gen := st.gen ++ [p] }
   let seq := st.pending.flatten
-  match findStop seq stops with
+  match findStopV pinned seq stops with
   | some stop => ({ st with pending := (truncateStop st.pending stop).1 }).finish .stop (.stopString stop)
   | none =>
     if containsStopSuffix seq stops then st
@@ -165,7 +186,7 @@ def stepPiece (stops : List Bytes) (st : St) (p : Bytes) : St :=
 /-- `limit` is `seq.numPredict` (≤ 0: unlimited). One iteration = one call of processBatch:
     the limit check at the top, then (if the model still has an event) sampling. When the
     script `evs` is exhausted the sequence is simply still running. -/
-def run (limit : Int) (stops : List Bytes) (st : St) : List Ev → St
+def run (pinned : Bool) (limit : Int) (stops : List Bytes) (st : St) : List Ev → St
   | [] =>
     if limit > 0 ∧ (st.numPredicted : Int) ≥ limit then st.finish .length .limit else st
   | ev :: rest =>
@@ -173,8 +194,8 @@ def run (limit : Int) (stops : List Bytes) (st : St) : List Ev → St
     else match ev with
       | .eos => ({ st with numPredicted := st.numPredicted + 1 }).finish .stop .eos
       | .piece p =>
-        let st' := stepPiece stops st p
-        if st'.done.isSome then st' else run limit stops st' rest
+        let st' := stepPiece pinned stops st p
+        if st'.done.isSome then st' else run pinned limit stops st' rest
 
 def init : St := {}
 
